@@ -196,4 +196,31 @@ example : ((Prog.runSched [0, 1, 2, 3, 1, 0, 2, 3] exDb (exPool.map (prog exCfg)
 
 end examples
 
+/-! ## PUT traits: the no-op exception (known finding F1) -/
+
+/-- what the property asks of PUT traits (and what holds for the three request kinds above): of the
+requests carrying the same generation for one provider at most one answers 2xx -/
+def traits_at_most_one_full : Prop :=
+  ∀ (cfg : Config) (ops : List (Op Nat)) (db : DB Nat) (sched : List Nat) (u g : Nat) (i j : Nat) (ti tj : List Nat)
+    (a b : Resp), (∀ op ∈ ops, isProviderOp op = false) → Uniq db →
+    ops[i]? = some (.rpTraitsSet u g ti) → ops[j]? = some (.rpTraitsSet u g tj) →
+    (Prog.runSched sched db (ops.map (prog cfg))).2[i]? = some (.done a) → a.ok = true →
+    (Prog.runSched sched db (ops.map (prog cfg))).2[j]? = some (.done b) → b.ok = true → i = j
+
+/-- **C05_witness_noop_traits.**  Two PUT traits for provider 101 carrying generation 3 and the same
+trait set {13, 15} (the provider has {13}).  Request 1 reads the provider and the traits, request 0
+runs completely (200, generation 4), then the write transaction of request 1 finds nothing to change
+and answers 200 without the compare-and-swap: two successes with one generation. -/
+theorem C05_witness_noop_traits :
+    let pool : List (Op Nat) := [.rpTraitsSet 101 3 [13, 15], .rpTraitsSet 101 3 [13, 15]]
+    let fin := Prog.runSched [1, 1, 0, 0, 0, 1] Wf.exDb (pool.map (prog Wf.exCfg))
+    fin.2.map Prog.result? = [some r200, some r200] ∧ fin.1.rpByUuid 101 = some ⟨2, 101, 201, 4, some 1, 1⟩ := by
+  decide
+
+theorem traits_at_most_one_full_false : ¬ traits_at_most_one_full := by
+  intro h
+  have := h Wf.exCfg [.rpTraitsSet 101 3 [13, 15], .rpTraitsSet 101 3 [13, 15]] Wf.exDb [1, 1, 0, 0, 0, 1] 101 3 0 1
+    [13, 15] [13, 15] r200 r200 (by decide) Wf.uniq_exDb rfl rfl rfl (by decide) rfl (by decide)
+  exact absurd this (by decide)
+
 end Placement.Props.C05
